@@ -14,6 +14,11 @@ APPLY = ['_ZN8Pistache4Http7Private11HeadersStep5applyERNS_12StreamCursorE', '_Z
          '_ZN8Pistache4Http7Private16ResponseLineStep5applyERNS_12StreamCursorE', '_ZN8Pistache4Http7Private8BodyStep5applyERNS_12StreamCursorE']
 UNITS['parser'] = dict(src=HTTP, mode='inl', roots=['_ZN8Pistache4Http7Private10ParserBase4feedEPKcm', '_ZN8Pistache4Http7Private10ParserBase5resetEv', '_ZN8Pistache4Http7Private10ParserBase5parseEv'], stubs=APPLY,
     globals=['_ZTVN8Pistache4Http7Private8BodyStepE', '_ZTVN8Pistache4Http7Private11HeadersStepE', '_ZTVN8Pistache4Http7Private15RequestLineStepE'])
+QADD = '_ZN8Pistache4Http3Uri5Query3addENSt7__cxx1112basic_stringIcSt11char_traitsIcESaIcEEES8_'
+REQAPPLY = '_ZN8Pistache4Http7Private15RequestLineStep5applyERNS_12StreamCursorE'
+RESPAPPLY = '_ZN8Pistache4Http7Private16ResponseLineStep5applyERNS_12StreamCursorE'
+UNITS['reqline'] = dict(src=HTTP, mode='sel', roots=[REQAPPLY], stubs=[RAISE, QADD])
+UNITS['respline'] = dict(src=HTTP, mode='sel', roots=[RESPAPPLY], stubs=[RAISE])
 REAL = dict(real=ALL, shim=['harness/shim_guard.cc'])
 TV = dict(real=ALL + ['harness/shim_guard.cc'], n=300)
 HARNESSES = [
@@ -32,6 +37,19 @@ for (s_, x_, l1, l2) in [(s_, x_, l1, l2) for s_ in (0, 1, 3) for x_ in (0, 1) f
        tiers=('quick', 'thorough') if (x_ == 0 and l2 == 1) or (s_ == 3 and l1 == 2) else ('thorough',),
        bound='buffer of %d bytes with %d spare capacity, any read offset, any maxSize (64-bit), feeds of %d then %d bytes, all contents' % (s_, x_, l1, l2),
        desc='L1/C14a: feed re-bases the get area, preserves read offset and earlier bytes, appends in order; refused iff over the limit and then changes nothing'))
+def line_inst(kind, n, k, tiers, witness, wq=0, prefix=None):
+    d = {'NN': n, 'K': k, 'WQ': wq}
+    if kind == 'resp': d['H_RESP'] = None
+    if prefix: d['ASSUME_PREFIX'] = '"\\"%s\\""' % prefix
+    return dict(name='%sline_n%d_k%d%s' % (kind, n, k, '_p' if prefix else ''), units=['reqline' if kind == 'req' else 'respline'], file='c01_lines.c', defs=d, unwind=n + 3,
+                tiers=tiers, witness=witness, timeout=1200,
+                bound='every %s line prefix of exactly %d bytes%s, cut after %d bytes' % ('request' if kind == 'req' else 'status', n, ' starting with "%s"' % prefix if prefix else '', k),
+                desc='L2 two-run: prefix run (Again => reverted, effects prefix; Next => same Next; error => same error) vs whole run; all reads inside the exact-size blocks')
+for n in (8, 9):
+    for k in range(1, n):
+        HARNESSES.append(line_inst('req', n, k, ('quick', 'thorough') if n == 9 or k in (3, 6) else ('thorough',), witness=(k == 5), wq=1 if n == 9 else 0))
+for k in range(1, 13):
+    HARNESSES.append(line_inst('resp', 13, k, ('quick', 'thorough') if k in (2, 7, 8, 9, 10, 11, 12) else ('thorough',), witness=(k == 10)))
 def chunk_inst(n, k1, k2, tiers, witness):
     d = {'N': n, 'NFIX': n, 'K1FIX': k1, 'K2FIX': k2, 'D': 2 if k1 == k2 else 3, 'CHUNKED': None, 'REFERENCE': None, 'VP_DISPATCH_ru8p_u8p': None}
     return dict(name='chunk_n%d_k%d%s' % (n, k1, '' if k1 == k2 else '_%d' % k2), units=['body'], file='c01_body.c', defs=d, unwind=n + 3,
